@@ -114,6 +114,23 @@ R.contract(
     props=["C03", "C09"])
 
 
+# ---- PhasedVcfWriter._set_HP: the HP value is set (its text "<component+1>-<allele+1>,..." is an opaque function of component and phase: f-strings and join are
+# not interpreted), HS as for _set_PS; the genotype and its phase bits are NOT touched (an HP-encoded phase lives in the tag, the GT stays unphased)
+R.contract(
+    "PhasedVcfWriter._set_HP",
+    params={"self": REF("PVW"), "call": REF("Call"), "component": INT, "phase": LIST(INT), "haploid_component": MAYBE(LIST(INT))},
+    requires=[("owner", "call.rec is not None and not call.rec.frozen")],
+    ensures=[
+        ("hp-is-set", "tag('HP') not in call.tag_none"),
+        ("genotype-untouched", "len(call.gt) == old(len(call.gt)) and forall(i, call.gt[i] == old(call.gt[i])) and call.gt_none == old(call.gt_none) and forall(i, (i in call.ph) == old(i in call.ph))"),
+        ("other-tags-as-before", "forall(t, implies(t != tag('HP') and t != tag('HS'), (t in call.tag_none) == old(t in call.tag_none)))"),
+        ("only-this-call", "ONLY_THIS_CALL(call)"),
+    ],
+    modifies=["Call.tag_none", "Call.tag_int", "Call.tag_list"],
+    extra={"assume_asserts": [0]},
+    props=["C09"])
+
+
 # ---------------------------------------------------------------------------------------------------------------------------------
 # VcfAugmenter._iterrecords / write_unchanged (C04: records are streamed from the input in order, one chromosome at a time; chromosomes that are
 # not phased are written back untouched).  self._reader_iter is an iterator OBJECT over the file's records (items + cursor): a for loop over it consumes.
